@@ -9,7 +9,8 @@ Model driver for C18 (modules). One request line = one scenario:
         | (callm <m> <key>) | (call <key>)
   act   = (print mk) | (export k v) | (assign k v) | (exportid k src) | (show mk k) | (import <item>*)
         | (from m <item>*) | (fromall m) | (try m mk) | (fail mk)
-        | (pat <0|1 export> (<target>*) (<rhs>*))
+        | (pat <0|1 export> (<target>*) (<rhs>*)) | (cmp k <op> <rhs>) | (loop n k <op> <rhs>)
+        | (cond <form> k v)        op = add | sub | mul | rem | pow
   target = (id k) | (ign) | (map <entry>*)      entry = (e key target) | (e key _)
   rhs   = (lit n) | (ref k)
   item  = (i <ref>) | (i <ref> alias)     ref = name | (r name <0|1 string> <seg>*)   seg = name | ..
@@ -28,7 +29,7 @@ open KotoVerif KotoVerif.Proto KotoVerif.Modules
 
 /-- names 200 + 10·a + b are the dotted names `m<a>.v<b>` -/
 def nameStr (n : Nat) : String :=
-  if n == 99 then "string" else if n ≥ 200 then s!"m{(n - 200) / 10}.v{(n - 200) % 10}"
+  if n == 99 then "string" else if n == 89 then "zi" else if n == 90 then "size" else if n == 91 then "type" else if n == 92 then "copy" else if n ≥ 200 then s!"m{(n - 200) / 10}.v{(n - 200) % 10}"
   else if n < 50 then s!"m{n}" else s!"k{n}"
 
 def pathStr (p : Path) : String :=
@@ -37,12 +38,12 @@ def pathStr (p : Path) : String :=
 def errStr : Err → String
   | .recursive => "rec" | .notFound => "nf" | .compile => "compile" | .thrown => "thrown"
   | .idNotFound => "idnf" | .access => "access" | .type => "type" | .exportEntry => "exportentry"
-  | .call => "call"
+  | .call => "call" | .arith => "arith"
 
 /-- Koto's display of a value (`{a: 1, b: {}}`), module references resolved through the cache -/
 def display (cache : Path → Option Entry) : Nat → V → String
   | _, .int n => toString n
-  | _, .core _ => "<core>"
+  | _, .core n => if n ≥ 90 ∧ n ≤ 92 then "||" else "<core>"
   | _, .null => "null"
   | _, .fn _ _ => "||"
   | 0, .mref _ => "<deep>"
@@ -56,7 +57,7 @@ def display (cache : Path → Option Entry) : Nat → V → String
 /-- canonical value text (`kvh::canon::value`) -/
 def canon (cache : Path → Option Entry) : Nat → V → String
   | _, .int n => s!"i{n}"
-  | _, .core _ => "<core>"
+  | _, .core n => if n ≥ 90 ∧ n ≤ 92 then "<native>" else "<core>"
   | _, .null => "null"
   | _, .fn _ _ => "<fn>"
   | 0, .mref _ => "<deep>"
@@ -118,6 +119,11 @@ def pRhs : Sexp → Option Rhs
   | .list [.atom "ref", k] => do pure (.ref (← k.nat?))
   | _ => none
 
+def pCOp : Sexp → Option COp
+  | .atom "add" => some .add | .atom "sub" => some .sub | .atom "mul" => some .mul
+  | .atom "rem" => some .rem | .atom "pow" => some .pow
+  | _ => none
+
 def pAct : Sexp → Option Act
   | .list [.atom "print", mk] => do pure (.print (← mk.nat?))
   | .list [.atom "export", k, v] => do pure (.export_ (← k.nat?) (← v.int?))
@@ -131,6 +137,9 @@ def pAct : Sexp → Option Act
     let r ← pRef m
     pure (.tryImport { r with str := true } (← mk.nat?))
   | .list [.atom "fail", mk] => do pure (.fail (← mk.nat?))
+  | .list [.atom "cmp", k, op, r] => do pure (.compound (← k.nat?) (← pCOp op) (← pRhs r))
+  | .list [.atom "loop", n, k, op, r] => do pure (.loopCompound (← n.nat?) (← k.nat?) (← pCOp op) (← pRhs r))
+  | .list [.atom "cond", f, k, v] => do pure (.condAssign (← f.nat?) (← k.nat?) (← v.int?))
   | .list [.atom "pat", e, .list ts, .list rs] => do
     pure (.assignPat ((← e.nat?) == 1) (← ts.mapM pTarget) (← rs.mapM pRhs))
   | _ => none
